@@ -115,6 +115,10 @@ def run(chk, replay=None):
             "byte layout (endianness, format 0x03, SMB_TIME width) is compared as drift only; it belongs to C05",
             "suffix set = {empty, 00, EE, 7 seeded bytes} for the case table; random 1..9-byte suffixes in recorded traces",
             "the embedded SMB_STRING container of SMB_RESUME_KEY is not a wire field and is not compared"]
+        # ---- specification growth (drift only)
+        from checks import g02
+        g02.run_growth(chk, tier, chk.seed)
+        chk.assumptions.append("growth (drift only): InfoLevels.tla -- SMB1 information levels (MS-CIFS 2.2.8), SecurityFeatures readings, fixed-layout MS-DTYP structures (DESIGN 13.7 G02)")
     finally:
         shutil.rmtree(d, ignore_errors=True)
 
